@@ -62,6 +62,10 @@ func c01World(tp *Tape, env *Env) (*Plan, *Violation) {
 	} else {
 		prog = g.program()
 	}
+	if tp.Chance(12, "deepchain") {
+		g.addDeepChain(prog, []string{"none", "stop", "jump"})
+		env.St.probe("program.block_chain_6_to_12_deep")
+	}
 	layout := genLayout(tp)
 	w := World{Readers: distribute(tp, prog, layout, 3)}
 	w.Host = HostSpec{Storer: []string{"default", "mem", "rec"}[tp.Int(0, 2, "storer")], Probes: true, Seed: "s1", Handlers: cfg.Handlers}
